@@ -178,7 +178,7 @@ def cases(tier, seed):
     T = tier == "thorough"
     out = []
     rnd = random.Random("c18-cases/%s" % seed)
-    n_gen = 1400 if T else 320
+    n_gen = 1400 if T else 240
     for k in range(n_gen):
         out.append({"id": "gen:%d" % k, "kind": "gen", "k": k, "seed": seed, "tier": tier})
     recs = corpus.fonts(pred=_eligible)
@@ -191,7 +191,7 @@ def cases(tier, seed):
     groups = {}
     for rec in recs:
         groups.setdefault((rec["upem"], "glyf" if "glyf" in rec["tables"] else "CFF"), []).append(rec)
-    n_mix = 900 if T else 160
+    n_mix = 900 if T else 120
     keys = sorted(k for k, v in groups.items() if len(v) >= 2)
     for k in range(n_mix):
         g = groups[keys[rnd.randrange(len(keys))]] if rnd.random() < 0.35 else groups[max(keys, key=lambda kk: len(groups[kk]))]
@@ -588,6 +588,11 @@ def _shape_input(ctx, rnd, i, excl, hi, hm, Si, ren, morder, bad, quick, flavour
                 continue
             na = [(ren[x[0]] if x[0] < len(ren) else "gid%d" % x[0],) + x[1:] for x in ra]
             nb = [(morder[x[0]] if x[0] < len(morder) else "gid%d" % x[0],) + x[1:] for x in rb]
+            if na != nb and unified and H.shape_trace(hi, t, f, script, lang) & set(unified):
+                # an intermediate glyph of this text is one the merger unified with another input's (documented
+                # duplicate handling through 'locl'): outside the claim
+                ctx.skip("guard: text passes through a glyph that was unified with another input's")
+                continue
             if na != nb:
                 reported = True
                 if [x[0] for x in na] != [x[0] for x in nb]:
